@@ -467,4 +467,33 @@ inductive DecorCall (cfg : Cfg) (s : St) (k : Nat) (ttl : Option Nat) (tags : Li
   | hit (kc x cacheHits updateAfter : Nat) (r : Run) (h : kc ≠ k) :
       DecorCall cfg s k ttl tags (hitCall cfg s k kc x ttl tags cacheHits updateAfter r)
 
+/-! ### several data backends routed by key prefix (`cache.setup(url); cache.setup(url, prefix="users:")`)
+
+`CommandWrapper.delete_many(*keys)` (`cashews/wrapper/commands.py`), which `_delete_tag` hands the popped members to:
+```
+backends = {}
+for key in keys: backends.setdefault(self._get_backend(key), []).append(key)
+for _keys in backends.values(): await self._with_middlewares(Command.DELETE_MANY, _keys[0])(*_keys)
+```
+`owner k` is the backend whose prefix routes key `k`.  A backend only holds - and can only delete - the keys it owns.  The model's
+`kv` is the union of the backends' stores (routing itself is C17's business). -/
+
+/-- the backends of the call, in the order of their first key (`dict` insertion order) -/
+def ownersOf (owner : Nat → Nat) : List Nat → List Nat
+  | [] => []
+  | k :: r => owner k :: (ownersOf owner r).filter (· ≠ owner k)
+
+/-- one list of keys per backend -/
+def groupsBy (owner : Nat → Nat) (ks : List Nat) : List (List Nat) :=
+  (ownersOf owner ks).map fun b => ks.filter (owner · = b)
+
+/-- each group goes to the backend that owns it -/
+def deleteManyRouted (cfg : Cfg) (owner : Nat → Nat) (s : St) (ks : List Nat) : St :=
+  (groupsBy owner ks).foldl (fun s g => g.foldl (St.delKey cfg) s) s
+
+/-- every group goes to the backend of the FIRST key of the whole call (`keys[0]` for `_keys[0]`), which deletes what it owns of it -
+kept only to show, in `Props/C12.lean`, that this breaks the property -/
+def deleteManyMisrouted (cfg : Cfg) (owner : Nat → Nat) (s : St) (ks : List Nat) : St :=
+  (groupsBy owner ks).foldl (fun s g => (g.filter (owner · = owner (ks.headD 0))).foldl (St.delKey cfg) s) s
+
 end CashewsVerif.Tags
